@@ -301,7 +301,7 @@ package ice
 //@ // (numDocs < 2^32 because document numbers are uint32)
 //@ // lock step of the two roaring cursors: Actual is a subset of all, and between calls both
 //@ // cursors stand just behind the last returned document
-//@ spec subset(a set, b set) bool = forall(k, select(a, k) ==> select(b, k))
+//@ spec subsetOf(a set, b set) bool = forall(k, select(a, k) ==> select(b, k))
 //@ spec maxi(a int, b int) int = ite(a >= b, a, b)
 //@
 //@ func (*PostingsIterator).nextDocNumAtOrAfter
@@ -309,7 +309,7 @@ package ice
 //@   requires[C05] i != nil
 //@   requires[C05] i.Actual != nil ==> i.postings != nil && i.all != nil && 1 <= i.postings.chunkSize && i.postings.chunkSize <= 4294967295
 //@   requires[C05] i.Actual != nil ==> inU32(itset(i.Actual)) && inU32(itset(i.all)) && itcur(i.Actual) >= 0
-//@   requires[C05] @lockstep i.Actual != nil && i.postings.postings != i.ActualBM ==> i.all != i.Actual && subset(itset(i.Actual), itset(i.all)) && itcur(i.all) <= itcur(i.Actual)
+//@   requires[C05] @lockstep i.Actual != nil && i.postings.postings != i.ActualBM ==> i.all != i.Actual && subsetOf(itset(i.Actual), itset(i.all)) && itcur(i.all) <= itcur(i.Actual)
 //@   let target = maxi(old(itcur(i.Actual)), atOrAfter)
 //@   // 1-hit cursor: delivered at most once, only if not below the target; the consumed sentinel is absorbing
 //@   ensures[C05] old(i.normBits1Hit) != 0 ==> err == nil && i.docNum1Hit == 18446744073709551615
@@ -338,3 +338,67 @@ package ice
 //@   ensures[C05] i.Actual == old(i.Actual) && i.all == old(i.all) && itcur(i.Actual) >= old(itcur(i.Actual)) && itset(i.Actual) == old(itset(i.Actual))
 //@   loop 0 invariant[C05] i.Actual == old(i.Actual) && itset(i.Actual) == old(itset(i.Actual)) && itcur(i.Actual) == n + 1 && n >= old(itcur(i.Actual))
 //@   loop 0 invariant[C05] select(itset(i.Actual), n) && forall(k, old(itcur(i.Actual)), n, select(itset(i.Actual), k) ==> k < atOrAfter)
+//@
+//@ // ---------------------------------------------------------------------------
+//@ // C03: old-to-new document number mapping
+//@ spec dropped() int = 9223372036854775807
+//@
+//@ func (*chunkedDocumentCoder).Size
+//@   pure
+//@
+//@ func (*chunkedDocumentCoder).writeToBuf
+//@   frames[C03] c.offsets[*]
+//@
+//@ func (*chunkedDocumentCoder).flush
+//@   frames[C03] c.offsets[*]
+//@   ensures[C03] arr(c.offsets) == old(arr(c.offsets)) || fresh(c.offsets)
+//@
+//@ func (*chunkedDocumentCoder).newLine
+//@   frames[C03] c.offsets[*]
+//@   ensures[C03] arr(c.offsets) == old(arr(c.offsets)) || fresh(c.offsets)
+//@
+//@ func (*chunkedDocumentCoder).Add
+//@   frames[C03] c.offsets[*]
+//@   ensures[C03] arr(c.offsets) == old(arr(c.offsets)) || fresh(c.offsets)
+//@
+//@ // survivors of one segment get consecutive new numbers starting at newDocNum, in document
+//@ // order; dropped documents get the sentinel
+//@ func mergeStoredAndRemapSegment
+//@   requires[C03] seg != nil && docChunkCoder != nil && len(segNewDocNums) == seg.footer.numDocs
+//@   requires[C03] arr(segNewDocNums) != arr(docNumOffsets) && arr(segNewDocNums) != arr(docChunkCoder.offsets) && arr(segNewDocNums) != 0
+//@   let D = ite(dropsI == nil, emptyset(), bset(dropsI))
+//@   let base = old(newDocNum)
+//@   loop 0 invariant[C03] 0 <= docNum && docNum <= seg.footer.numDocs && newDocNum == base + docNum - cardbelow(D, docNum)
+//@   loop 0 invariant[C03] forall(d, 0, docNum, segNewDocNums[d] == ite(select(D, d), dropped(), base + d - cardbelow(D, d)))
+//@   loop 0 invariant[C03] seg.footer.numDocs == old(seg.footer.numDocs) && arr(segNewDocNums) != arr(docChunkCoder.offsets) && (dropsI != nil ==> bset(dropsI) == old(bset(dropsI)))
+//@   ensures[C03] result1 == nil ==> result0 == base + seg.footer.numDocs - cardbelow(D, seg.footer.numDocs)
+//@   ensures[C03] result1 == nil ==> forall(d, 0, seg.footer.numDocs, segNewDocNums[d] == ite(select(D, d), dropped(), base + d - cardbelow(D, d)))
+//@
+//@ func mergeStoredAndRemap
+//@   requires[C03,C04] cast(w, "*countHashWriter") != nil && len(drops) == len(segments) && forall(i, 0, len(segments), segments[i] != nil)
+//@   loop 0 invariant[C03] len(newDocNums) == rangeindex + 1
+//@   loop 0 invariant[C03] forall(j, 0, len(newDocNums), len(newDocNums[j]) == segments[j].footer.numDocs)
+//@   loop 0 invariant[C03] forall(j, 0, len(segments), segments[j] != nil)
+//@   ensures[C03] @one_slice_per_segment err == nil ==> len(newDocNums) == len(segments)
+//@   ensures[C03] @slice_len_is_doc_count err == nil ==> forall(j, 0, len(segments), len(newDocNums[j]) == segments[j].footer.numDocs)
+//@
+//@ func mergeToWriter
+//@   requires[C03,C04] cr != nil && len(drops) == len(segments) && forall(i, 0, len(segments), segments[i] != nil)
+//@   ensures[C03] @one_slice_per_segment err == nil ==> len(newDocNums) == len(segments)
+//@   ensures[C03] @slice_len_is_doc_count err == nil ==> forall(j, 0, len(segments), len(newDocNums[j]) == segments[j].footer.numDocs)
+//@
+//@ func newChunkedDocumentCoder
+//@   ensures[C03,C04,C06] result0 != nil && fresh(result0) && result0.w == w && result0.chunkSize == chunkSize && result0.n == 0 && result0.bytes == 0
+//@   ensures[C03,C04,C06] len(result0.offsets) == 1 && result0.buf != nil && fresh(result0.offsets)
+//@
+//@ // the per-segment mapping tables are read-only for everything after the stored section
+//@ func setupActiveForField
+//@   frames[C03] !newDocNumsIn[*], !segments[*]
+//@   loop 0 invariant[C03] (arr(newDocNums) == 0 && cap(newDocNums) == 0) || fresh(newDocNums)
+//@   loop 0 invariant[C03] (arr(segmentsInFocus) == 0 && cap(segmentsInFocus) == 0) || fresh(segmentsInFocus)
+//@
+//@ func persistMergedRestField
+//@   frames[C03] !newDocNumsIn[*], !segments[*]
+//@
+//@ func persistMergedRest
+//@   frames[C03] !newDocNumsIn[*], !segments[*]
